@@ -7,7 +7,8 @@ correspondence: the hand-written accessor model (Charact/Invariance.v acc_pressu
 oracle/search : metamorphic, on the implementation: every entry point x sample and synthetic isotherms x conversions of the stored
                 pressure representation, non-fractional loading representation and temperature unit (also of the reference isotherm /
                 of each isotherm of an isosteric set) -> results equal field by field; Henry constants x exact unit factors;
-                loadings x c -> extensive results x c, intensive unchanged.
+                the SAME objects analysed, converted in place, analysed again (stale interpolators / memoised values);
+                loadings x c (c from 1e-6 to 1e6) -> extensive results x c, intensive results and selected regions unchanged.
 """
 import math
 import os
@@ -352,7 +353,7 @@ def metamorphic(rep, tier, seed, isos):
     n_eval = 0
     nontrivial = set()
     hist = {}
-    nvar = 4 if tier == 'quick' else 30
+    nvar = 4 if tier == 'quick' else 18
     factors = [0.5, 3.0, 1e-6, 1e6] if tier == 'quick' else [0.5, 3.0, 1e-3, 1e3, 1e-4, 1e-6, 1e6]
     single = ['area_BET', 'area_langmuir', 't_plot', 'dr_plot', 'da_plot', 'psd_mesoporous:pygaps-DH', 'psd_mesoporous:BJH', 'psd_mesoporous:DH',
               'psd_microporous:HK', 'psd_microporous:HK-CY', 'psd_microporous:RY', 'psd_microporous:RY-CY', 'psd_dft', 'initial_henry_slope', 'initial_henry_virial']
